@@ -119,9 +119,12 @@ package sessions
 //@   call (http.CookieJar).Cookies
 //@     assert[C10:cookies-for-the-https-request-url] arg0 == jarG && arg1 == &urlForCookies && urlForCookies.Scheme == "https" && urlForCookies.Host == r.Host && urlForCookies.Path == r.URL.Path && urlForCookies.RawQuery == r.URL.RawQuery
 //@     assume forall(i, 0, len(ret0), ret0[i] != nil)
+//@   ghost restoredReq int = 0
 //@   call (*sessionHandler).restoreSession
-//@     assert[C10:restore-into-this-request] arg0 == h && arg1 == r && arg2 == cachedCookies
+//@     assert[C10:restore-into-this-request] arg0 == h && arg1 == r && arg2 == cachedCookies && restoredReq == 0
+//@     do restoredReq = restoredReq + 1
 //@   call (http.Handler).ServeHTTP
+//@     assert[C10:session-cookie-stripped-before-the-backend-sees-the-request] restoredReq == 1
 //@     assert[C10:wrapped-handler-once-with-this-sessions-writer] served == 0 && arg0 == h.wrapped && arg2 == r && typeis(arg1, "*sessions.sessionResponseWriter")
 //@     |   && cast(unboxRef(arg1, "*sessions.sessionResponseWriter"), "*sessionResponseWriter").sessionID == sid
 //@     |   && cast(unboxRef(arg1, "*sessions.sessionResponseWriter"), "*sessionResponseWriter").c == h.c
